@@ -405,8 +405,22 @@ def _():
 
 @op("subbasins_pfafstetter", classes=R, group="basins")
 def _():
-    return (lambda rng, w: {"depth": rng.choice([1, 2]), "upa_min": rng.choice([0.0, 2.0, None])},
-            lambda W, a: W.flw.subbasins_pfafstetter(depth=a["depth"], uparea=W.uparea_distinct(), upa_min=a["upa_min"]))
+    def gen(rng, w):
+        n = len(w["ds"])
+        nin = [0] * n
+        for i, d in enumerate(w["ds"]):
+            if d != n and d != i:
+                nin[d] += 1
+        # two tributaries entering the main stem at the SAME cell have equal sort keys (uparea of their common
+        # downstream cell): their numbering is a documented-free choice (np.argsort vs Numba's argsort differ)
+        return {"depth": rng.choice([1, 2]), "upa_min": rng.choice([0.0, 2.0, None]), "ambiguous": max(nin) >= 3}
+
+    def call(W, a):
+        if a["ambiguous"]:
+            m, idxs = W.flw.subbasins_pfafstetter(depth=a["depth"], uparea=W.uparea_distinct(), upa_min=a["upa_min"])
+            return ["pfafstetter-numbering-not-unique (3-way confluence)", m.shape, str(m.dtype), np.sort(idxs)]
+        return W.flw.subbasins_pfafstetter(depth=a["depth"], uparea=W.uparea_distinct(), upa_min=a["upa_min"])
+    return gen, call
 
 
 @op("basin_outlets", classes=R, group="basins")
